@@ -432,20 +432,28 @@ func runConc(q qapi, p *concParams, r *vlib.Rand) (*concOut, *stall) {
 		return nil, &s
 	}
 	// ---- quiescent: everything below is single-threaded
-	out.sizeAtEnd = q.size()
-	for {
-		v := q.getNoWait()
-		if v == nil {
-			break
+	drained := guardCall(curWatchdog(), func() {
+		out.sizeAtEnd = q.size()
+		for {
+			v := q.getNoWait()
+			if v == nil {
+				break
+			}
+			if id, ok := v.(uint64); ok {
+				out.left = append(out.left, id)
+			} else {
+				out.pillsLeft++
+			}
+			if len(out.left)+out.pillsLeft > p.P*p.PerProd+p.C+16 {
+				break
+			}
 		}
-		if id, ok := v.(uint64); ok {
-			out.left = append(out.left, id)
-		} else {
-			out.pillsLeft++
-		}
-		if len(out.left)+out.pillsLeft > p.P*p.PerProd+p.C+16 {
-			break
-		}
+	})
+	drained.rethrow()
+	if !drained.Returned {
+		atomic.AddInt32(&stallsSeen, 1)
+		s := stall{Detail: map[string]interface{}{"phase": "quiescent Size()/GetNoWait() does not return"}}
+		return nil, &s
 	}
 	out.nilGets = atomic.LoadInt64(&nilGets)
 	out.clears = atomic.LoadInt64(&clears)
